@@ -328,6 +328,50 @@ pub fn run(tier: &str, seed: u64, outdir: &str) {
         out.case(&line, "issuer-output", || json!({"kind": "issuer-output", "object": nm, "ids": f}));
     }
 
+    // the issuer API called with identifier objects that were never validated (from deserialisation or new_unchecked):
+    // whatever it returns carries identifiers that pass validation (refusing the call is fine)
+    {
+
+        let bads = ["not a registry id", "", "DXoTtQJNtXtiwWaZAK3rB1:4:DXoTtQJNtXtiwWaZAK3rB1:3:CL:98153::CL_ACCUM:tag", "a b:c", "DXoTtQJNtXtiwWaZAK3rB1:2:example"];
+        for bad in bads {
+            let mut results: Vec<(&str, Option<Value>)> = vec![];
+            let r = std::panic::catch_unwind(std::panic::AssertUnwindSafe(|| {
+                issuer::create_revocation_status_list(&cred_def, RevocationRegistryDefinitionId::new_unchecked(bad), &rev_reg_def, &rev_reg_priv, true, Some(10)).ok().and_then(|x| serde_json::to_value(&x).ok())
+            }));
+            results.push(("status_list:unchecked-registry-id", r.unwrap_or(None)));
+            let r = std::panic::catch_unwind(std::panic::AssertUnwindSafe(|| {
+                issuer::create_credential_offer(SchemaId::new_unchecked(bad), CredentialDefinitionId::new_unchecked(bad), &kcp).ok().and_then(|x| serde_json::to_value(&x).ok())
+            }));
+            results.push(("offer:unchecked-ids", r.unwrap_or(None)));
+            let r = std::panic::catch_unwind(std::panic::AssertUnwindSafe(|| {
+                issuer::create_schema("n", "1.0", IssuerId::new_unchecked(bad), AttributeNames::from(vec!["a".to_string()])).ok().and_then(|x| serde_json::to_value(&x).ok())
+            }));
+            results.push(("schema:unchecked-issuer-id", r.unwrap_or(None)));
+            let r = std::panic::catch_unwind(std::panic::AssertUnwindSafe(|| {
+                issuer::create_credential_definition(SchemaId::new_unchecked(bad), &schema, IssuerId::new_unchecked(bad), "t", SignatureType::CL, CredentialDefinitionConfig { support_revocation: false })
+                    .ok().and_then(|x| serde_json::to_value(&x.0).ok())
+            }));
+            results.push(("cred_def:unchecked-ids", r.unwrap_or(None)));
+            let r = std::panic::catch_unwind(std::panic::AssertUnwindSafe(|| {
+                let mut tw2 = anoncreds::tails::TailsFileWriter::new(Some(tails_dir.clone()));
+                issuer::create_revocation_registry_def(&cred_def, CredentialDefinitionId::new_unchecked(bad), "t2", RegistryType::CL_ACCUM, 2, &mut tw2).ok().and_then(|x| serde_json::to_value(&x.0).ok())
+            }));
+            results.push(("rev_reg_def:unchecked-cred-def-id", r.unwrap_or(None)));
+            for (what, v) in results {
+                let Some(v) = v else {
+                    out.bump("issuer-output:unchecked-id-refused");
+                    continue;
+                };
+                let mut found = vec![];
+                collect(&v, &mut found);
+                let id = out.next_id();
+                // the "inputs" are the returned ids themselves: the only question is whether each passes validation
+                let line = format!("(C20 {} O {} {})", id, sx::list(found.iter(), |(k, s)| format!("({} {})", k, sx::s(s))), sx::list(found.iter(), |(k, s)| format!("({} {})", k, sx::s(s))));
+                let (nm, f) = (what.to_string(), found.clone());
+                out.case(&line, "issuer-output:unchecked-id-accepted", || json!({"kind": "issuer-output", "call": nm, "ids": f}));
+            }
+        }
+    }
     // credential requests: validate() on documents built from a real request, new() through create_credential_request
     let template = serde_json::to_value(&req).unwrap();
     let cred_def_ids = [
